@@ -42,7 +42,13 @@ pub fn analyze_order(egraph: &EGraph, enode: &Expr) -> OrderKey {
         Order([keys, _]) | TopN([_, _, keys, _]) => x(keys).clone(),
         // plans that preserve order
         Proj([_, c]) | Filter([_, c]) | Window([_, c]) | Limit([_, _, c]) => x(c).clone(),
-        MergeJoin([_, _, _, _, _, r]) => x(r).clone(),
+        // a merge join emits rows in key order; the rows of a side it preserves without a match
+        // are padded with NULLs on the other side, so only the preserved side's key stays ordered
+        MergeJoin([t, _, _, _, l, r]) => match egraph[*t].nodes[0] {
+            Inner | RightOuter => x(r).clone(),
+            LeftOuter => x(l).clone(),
+            _ => Box::new([]),
+        },
         SortAgg([_, _, c]) => x(c).clone(),
         // unordered for other plans
         _ => Box::new([]),
